@@ -16,7 +16,15 @@ for name in sorted(os.listdir(os.path.join(V, "seeded"))):
         m = json.load(open(mp))
     except Exception:
         m = {}
-    origin = "independent sub-agent, round 2 (hard)" if "-r2-" in name else ("independent sub-agent, round 1" if "-sub-" in name else "family engineer's self-test")
+    mr = re.search(r"-r(\d+)-", name)
+    if mr:
+        origin = "independent sub-agent, round %s%s" % (mr.group(1), " (harmless refactor)" if "harmless" in name else "")
+    elif "-sub-" in name:
+        origin = "independent sub-agent, round 1"
+    elif "-ast-" in name or "-live-" in name:
+        origin = "family engineer's self-test (translator tie / liveness)"
+    else:
+        origin = "family engineer's self-test"
     r = res.get(name, [name, m.get("property", "?"), "not run", "", ""])
     summ = (m.get("summary") or m.get("what") or m.get("description") or "")
     summ = re.sub(r"\s+", " ", str(summ))[:170].replace("|", "/")
